@@ -79,7 +79,7 @@ def solve(
         + [
             stage2.Equation(
                 k,
-                np.asarray(v)[..., np.newaxis].astype("int32"),
+                np.asarray(v, dtype=None if np.size(v) > 0 else "int64")[..., np.newaxis],
                 depth1=None,
                 depth2=None,
                 desc1=f"axis {k}",
